@@ -30,7 +30,7 @@ class Ctx:
         s.level = 'model_checking'
         s.cov = {'states': 0, 'transitions': 0, 'traces_validated_against_impl': 0, 'samples': [],
                  'queries': 0, 'solver_s': 0.0, 'functions_encoded': [], 'bounds': {}, 'models_used': [],
-                 'obligations': [], 'engines': []}
+                 'engines': []}
         s.assumptions = []
         s.obl = {}              # name -> dict(status, ...)
 
@@ -91,7 +91,9 @@ class Ctx:
     # ---------- end of run
     def write_evidence(s):
         cov = dict(s.cov)
-        cov['obligations'] = list(s.obl.values())
+        cov['obligation_list'] = list(s.obl.values())
+        cov['obligations'] = len(s.obl)
+        cov['discharged'] = sum(1 for o in s.obl.values() if o['status'] in ('held', 'known'))
         cov['inconclusive'] = s.inconclusive
         cov['known_findings_hit'] = sorted(s.known_hits)
         if cov['states'] < 1: cov['states'] = 0
